@@ -135,7 +135,26 @@ def file_hooks(events, disk=None):
     def h_replace(src, dst, *a, **k):
         events.append(("replace", str(src), str(dst)))
 
-    return {"gwf.core.hash_spec": lambda spec: "H(" + str(spec) + ")", "builtins.open": h_open, "json.dump": h_dump, "json.load": h_load, "os.replace": h_replace, "os.rename": h_replace,
+    def h_named_tmp(mode="w+b", *a, **k):
+        # tempfile.NamedTemporaryFile / mkstemp: without dir= the file is created in $TMPDIR, which on clusters is usually another file system than the project
+        d = k.get("dir")
+        path = (str(d) if d is not None else tok("TMPDIR")) + "/" + str(k.get("prefix") or "tmp") + tok("RND") + str(k.get("suffix") or "")
+        mode = k.get("mode", mode)
+        events.append(("open", path, mode))
+        return Obj("file", path=path, mode=mode, name=path)
+
+    def h_mkstemp(suffix=None, prefix=None, dir=None, text=False, **k):
+        path = (str(dir) if dir is not None else tok("TMPDIR")) + "/" + str(prefix or "tmp") + tok("RND") + str(suffix or "")
+        return (Obj("fd", path=path), path)
+
+    def h_fdopen(fd, mode="r", *a, **k):
+        path = getattr(fd, "path", tok("FD"))
+        events.append(("open", path, k.get("mode", mode)))
+        return Obj("file", path=path, mode=k.get("mode", mode), name=path)
+
+    return {"gwf.core.hash_spec": lambda spec: "H(" + str(spec) + ")", "builtins.open": h_open,
+            "tempfile.NamedTemporaryFile": h_named_tmp, "tempfile.mkstemp": h_mkstemp, "os.fdopen": h_fdopen, "tempfile.gettempdir": lambda: tok("TMPDIR"),
+            "os.fsync": lambda *a, **k: None, "attr:flush": lambda recv, *a: None, "attr:fileno": lambda recv, *a: Obj("fd", path=getattr(recv, "path", None)), "json.dump": h_dump, "json.load": h_load, "os.replace": h_replace, "os.rename": h_replace,
             "attr:write": lambda recv, *a: events.append(("write", getattr(recv, "path", None), a[0] if a else None)),
             "attr:close": lambda recv, *a: events.append(("ops.close",)) if isinstance(recv, Obj) and recv._name == "ops" else None}
 
@@ -184,6 +203,11 @@ def eval_status(ctx):
             out[name] = interp.call(m, (target_obj(ctx, name=name),), {}, self_obj=obj)
         except (Raised, Unsupported) as exc:
             out[name] = f"<{exc}>"
+    tb0, obj0 = tracking_backend(ctx, {"T": 0, "X": 1}, {0: S("RUNNING"), 1: S("FAILED")})
+    try:
+        out["zero"] = interp.call(m, (target_obj(ctx, name="T"),), {}, self_obj=obj0)
+    except (Raised, Unsupported) as exc:
+        out["zero"] = f"<{exc}>"
     tb2, obj2 = tracking_backend(ctx, {"T": tok("ID")}, {})
     try:
         out["nostate"] = interp.call(m, (target_obj(ctx, name="T"),), {}, self_obj=obj2)
@@ -317,8 +341,20 @@ def eval_call_failure(ctx, err_text="sbatch: error: Batch job submission failed"
         for err in (False, True):
             stderr = err_text if err else ok_text
             proc = Obj("proc", returncode=rc)
+            def h_run(cmd, *a, rc=rc, stderr=stderr, **k):
+                # subprocess.run / check_output / check_call as documented: check=True (or the check_* variants) raise CalledProcessError on a non-zero status
+                if k.get("check") and rc != 0:
+                    raise Raised("CalledProcessError", f"Command {cmd!r} returned non-zero exit status {rc}.")
+                return Obj("completed", returncode=rc, stdout=tok("STDOUT"), stderr=stderr, args=cmd)
+
+            def h_check_output(cmd, *a, rc=rc, **k):
+                if rc != 0:
+                    raise Raised("CalledProcessError", f"Command {cmd!r} returned non-zero exit status {rc}.")
+                return tok("STDOUT")
             hooks = {"shutil.which": lambda name: "/usr/bin/" + str(name), "subprocess.Popen": lambda *a, **k: proc,
-                     "attr:communicate": lambda recv, *a, **k: (tok("STDOUT"), stderr)}
+                     "attr:communicate": lambda recv, *a, **k: (tok("STDOUT"), stderr), "subprocess.run": h_run, "subprocess.check_output": h_check_output,
+                     "attr:check_returncode": lambda recv, rc=rc: (_ for _ in ()).throw(Raised("CalledProcessError", "non-zero exit status")) if rc != 0 else None,
+                     "attr:wait": lambda recv, *a, **k: rc, "attr:poll": lambda recv: rc}
             interp = PureInterp(ctx, hooks=hooks)
             try:
                 out[(rc != 0, err)] = interp.call(fn, ("sbatch", "--parsable"), {"input": tok("SCRIPT")})
@@ -1126,6 +1162,18 @@ def server_session_witness(ctx):
     else:
         bound = dict(zip(params, enq[0][1]))
         bound.update(enq[0][2])
+        dv = bound.get("deps")
+        if isinstance(dv, (tuple, set, frozenset)):
+            bound["deps"] = sorted(dv)          # any re-iterable collection of the same ids is as good as the list
+        elif dv is not None and not isinstance(dv, list):
+            kind = type(dv).__name__
+            try:
+                bound["deps"] = list(dv)
+            except TypeError:
+                pass
+            if bound.get("deps") == msg["deps"]:
+                diffs.append(f"the prerequisite ids reach the scheduler as a one-shot iterator ({kind}): the task coroutine goes through them twice (wait for all, then check every "
+                             "state), the second pass sees nothing, so a failed or cancelled prerequisite no longer stops the dependent")
         if bound != msg:
             diffs.append(f"enqueue_task request {msg} reaches the scheduler as {bound}: every field must arrive under its own name (deps are the prerequisites the task waits for)")
     if [c[0] for c in sc] != ["enqueue_task", "get_task_states", "cancel_task"]:
@@ -1194,6 +1242,15 @@ def eval_local_client(ctx):
     out["submit_sent"] = list(sent)
     out["submit_io"] = list(flushed)
     del sent[:], flushed[:]
+    # a freshly started pool numbers its first task 0
+    answers.append(_json.dumps({"__kind__": "task_enqueued", "tid": 0}) + "\n")
+    try:
+        out["submit0"] = interp.call(idx.method(ops_ci, "submit_target"), (target_obj(ctx, name="N0", spec="S", working_dir="/w"), []), {}, self_obj=ops)
+    except Raised as exc:
+        out["submit0"] = f"<raises {exc.kind}: {exc.detail[:60]}>"
+    except Unsupported as exc:
+        out["submit0"] = Ellipsis
+    del sent[:], flushed[:]
     try:
         out["cancel"] = interp.call(idx.method(ops_ci, "cancel_job"), (0,), {}, self_obj=ops)
     except (Raised, Unsupported) as exc:
@@ -1216,6 +1273,9 @@ def local_client_witness(ctx):
                      "working_dir and deps=[0, 3]: a dropped id lets the task start before that prerequisite finished")
     if out["submit"] != 55:
         diffs.append(f"the pool answers task_enqueued tid=55 but submit_target returns {out['submit']!r}: a wrong id would be tracked for the target")
+    if out.get("submit0") is not Ellipsis and not (out.get("submit0") == 0 and out.get("submit0") is not False):
+        diffs.append(f"the pool answers task_enqueued tid=0 (the first task of a fresh pool) but submit_target returns {out.get('submit0')!r}: the pool accepted and runs the task, "
+                     "gwf treats the submission as failed/untracked and the next run enqueues the target a second time")
     for k in ("submit_io", "cancel_io"):
         io = out[k]
         if [e[0] for e in io] != ["write", "flush"]:
@@ -2121,7 +2181,7 @@ def _own_coroutines(self, module):
 _TaskInterp._own_coroutines = _own_coroutines
 
 
-def eval_task(ctx, deps=None, rc=0, timeout=False, spawn_fails=False, log_fails=False, cancel_at=None, unknown_dep=False, finished=(), leader_reaped=False):
+def eval_task(ctx, deps=None, rc=0, timeout=False, spawn_fails=False, log_fails=False, cancel_at=None, unknown_dep=False, finished=(), leader_reaped=False, one_shot=False):
     """Scheduler.try_handle_task evaluated once. deps: {dep id: final LocalStatus member}. Returns (result dict, error)."""
     LOCAL = "gwf.backends.local"
     idx = ctx.index
@@ -2199,15 +2259,14 @@ def eval_task(ctx, deps=None, rc=0, timeout=False, spawn_fails=False, log_fails=
         "attr:write": lambda recv, data, *a: ev.append(("write", getattr(recv, "path", None), data)),
         "attr:write_bytes": lambda recv, data: (h_open(str(recv), "wb"), ev.append(("write", str(recv), data)))[1],
         "attr:write_text": lambda recv, data, *a, **k: (h_open(str(recv), "w"), ev.append(("write", str(recv), data)))[1],
-        "attr:joinpath": lambda recv, *parts: PathTok("/".join([str(recv)] + [str(p_) for p_ in parts])),
-        "pathlib.Path": lambda *a: PathTok("/".join(str(x) for x in a)),
     }
-    sched = Obj("scheduler", working_dir=PathTok("/wd"), max_cores=2, tasks=tasks, task_states=states, cores_ressource=sem, **{"__class__": ci})
+    from ..symeval import SymPath      # the pure part of pathlib is computed for real (joinpath, with_suffix, parent ...)
+    sched = Obj("scheduler", working_dir=SymPath("/wd"), max_cores=2, tasks=tasks, task_states=states, cores_ressource=sem, **{"__class__": ci})
     interp = _TaskInterp(ctx, hooks, cancel_at)
     interp.events = ev
     out = {"events": ev, "raised": None}
     try:
-        interp.call(th, (7, "NAME", "echo hi", "/work", 5 if timeout else None, dep_ids), {}, self_obj=sched)
+        interp.call(th, (7, "NAME.v1", "echo hi", "/work", 5 if timeout else None, (iter(dep_ids) if one_shot else dep_ids)), {}, self_obj=sched)
     except Raised as exc:
         out["raised"] = exc.kind
     except Unsupported as exc:
@@ -2316,8 +2375,8 @@ def task_coroutine_witness(ctx):
                 diffs.append(f"a task whose process exits with status {rc} ends {out['final']}, expected {want}")
             ev = out["events"]
             writes = {str(e[1]): e[2] for e in ev if e[0] == "write"}
-            if writes != {"/wd/.gwf/logs/NAME.stdout": b"OUT", "/wd/.gwf/logs/NAME.stderr": b"ERR"}:
-                diffs.append(f"exit status {rc}: the task's output is stored as {writes}; expected stdout -> <project>/.gwf/logs/NAME.stdout and stderr -> NAME.stderr, complete")
+            if writes != {"/wd/.gwf/logs/NAME.v1.stdout": b"OUT", "/wd/.gwf/logs/NAME.v1.stderr": b"ERR"}:
+                diffs.append(f"exit status {rc}: the task's output is stored as {writes}; expected, for the task named NAME.v1, stdout -> <project>/.gwf/logs/NAME.v1.stdout and stderr -> NAME.v1.stderr, complete")
             opens = [e for e in ev if e[0] == "open"]
             if any(e[2] not in ("wb", "bw") for e in opens):
                 diffs.append(f"exit status {rc}: the logs are opened with modes {[e[2] for e in opens]}; the latest run's bytes must replace the file ('wb')")
@@ -2485,6 +2544,8 @@ def cached_fs_witness(ctx):
         stats.append(("stat", str(path), dict(k)))
         if str(path) == "/missing":
             raise Raised("FileNotFoundError", str(path))
+        if str(path) == "/epoch":     # a file dated 1970-01-01 (reproducible archives, `touch -d @0`): its time stamp is the number 0
+            return Obj("stat_result", st_mtime=0.0, st_ctime=999.0, st_atime=5.0, st_size=0)
         return Obj("stat_result", st_mtime=111.5, st_ctime=999.0, st_atime=5.0, st_size=3)
 
     hooks = {"os.stat": h_stat, "os.lstat": lambda p, *a, **k: (stats.append(("lstat", str(p), {})), h_stat(p))[1],
@@ -2517,6 +2578,14 @@ def cached_fs_witness(ctx):
             if exc.kind != "FileNotFoundError":
                 diffs.append(f"changed_at of a missing file raises {exc.kind}, expected FileNotFoundError")
         n += 1
+        try:
+            got0 = [interp.call(m_exists, ("/epoch",), {}, self_obj=fs), interp.call(m_changed, ("/epoch",), {}, self_obj=fs)]
+        except Raised as exc:
+            got0 = f"raises {exc.kind}"
+        n += 1
+        if got0 != [True, 0.0]:
+            diffs.append(f"for an existing file whose modification time is 0 (dated 1970-01-01) exists/changed_at give {got0}; expected [True, 0.0]: the time stamp is judged "
+                         "by its truth value, so the file counts as missing (a well-formed workflow is rejected with an unresolved input, or the target is always stale)")
         before = len(stats)
         fs2 = new_fs()
         interp.call(m_exists, ("/a",), {}, self_obj=fs2)
@@ -2824,17 +2893,20 @@ def _click_convert(ctx, fn, opt_long, text):
             typ_name = idx.canon(typ.func if isinstance(typ, ast.Call) else typ, fn.module) if isinstance(typ.func if isinstance(typ, ast.Call) else typ, (ast.Name, ast.Attribute)) else None
             typ_name = (typ_name or "").replace("builtins.", "")
         lo = hi = None
+        clamp = False
         if isinstance(typ, ast.Call):
             vals = {}
             for i, a in enumerate(typ.args[:2]):
                 vals[("min", "max")[i]] = a
             for k in typ.keywords:
                 vals[k.arg] = k.value
+            ip = PureInterp(ctx, hooks={"multiprocessing.cpu_count": lambda: 3, "os.cpu_count": lambda: 3})
             try:
-                lo = ctx.ev.eval(vals["min"], fn.module) if "min" in vals else None
-                hi = ctx.ev.eval(vals["max"], fn.module) if "max" in vals else None
-            except Exception:
-                raise Unsupported("click range bounds are not constants")
+                lo = ip.eval(vals["min"], {}, fn.module) if "min" in vals else None
+                hi = ip.eval(vals["max"], {}, fn.module) if "max" in vals else None
+                clamp = bool(ip.eval(vals["clamp"], {}, fn.module)) if "clamp" in vals else False
+            except (Raised, Unsupported, Exception):
+                raise Unsupported("click range bounds cannot be evaluated")
         if typ_name in ("int", "click.INT", "click.IntRange", "click.types.IntRange"):
             try:
                 v = int(text)
@@ -2850,6 +2922,8 @@ def _click_convert(ctx, fn, opt_long, text):
         else:
             raise Unsupported(f"click parameter type {typ_name}")
         if (lo is not None and v < lo) or (hi is not None and v > hi):
+            if isinstance(typ, ast.Call) and clamp:
+                return min(max(v, lo if lo is not None else v), hi if hi is not None else v)    # clamp=True silently moves the value into the range
             return ("rejected", f"{v} is not in the range")
         return v
     raise Unsupported(f"option {opt_long} not found")
